@@ -29,7 +29,7 @@ def main(tier, only=None):
     for n in ([64, 65] if tier == 'quick' else [63, 64, 65, 70, 128]):
         for mode in range(3):
             shapes.append(('hx_dbs_text_big', [n, mode], 'n%d/TEXT/sparse%d' % (n, mode)))
-    for n in ([2, 3] if tier == 'quick' else [1, 2, 3, 5]):
+    for n in ([2, 3] if tier == 'quick' else [1, 2, 3, 4]):
         for a in range(8):
             for b in range(8):
                 if tier == 'quick' and (a + b) % 3:
@@ -38,7 +38,7 @@ def main(tier, only=None):
     if only:
         shapes = [s for s in shapes if re.search(only, s[2])]
     u = E2Unit('bitset', os.path.join(HERE, 'w_dbs.cpp'), lib_srcs=['src/library/container/dynamic_bitset.cpp'], shapes=shapes,
-               timeout=300 if tier == 'quick' else 1500, conc_cap=200,
+               timeout=900 if tier == 'quick' else 7200, conc_cap=200,
                bounds=dict(size='concrete n (all bit patterns symbolic, incl. unused storage bits)', position='0..n+2 symbolic; SIZE_MAX, SIZE_MAX-1 in far shapes',
                            second_operand='sizes 0,1,n-1,n,n+1', histories='2-operation histories over 8 mutators', text_big='to_string/to_ulong at sizes 64,65 (thorough 63..128) on sparse states: one bit at every position, optionally bit 0 or the whole low word'))
     rule = ('one obligation = (pre-state size n, operation[, operand size]): every path of the real code explored, z3 decides every branch, every memory access and '
